@@ -178,6 +178,8 @@ func (g *gen) genFunc(typs []types.Type) error {
 
 func (g *gen) genStatement(typ types.Type, this, that string) error {
 	p := g.printer
+	// an alias is the type it stands for: look at that type, not at the alias node
+	typ = types.Unalias(typ)
 	switch ttyp := typ.Underlying().(type) {
 	case *types.Basic:
 		fieldStr, err := g.field(this, that, typ)
@@ -188,7 +190,7 @@ func (g *gen) genStatement(typ types.Type, this, that string) error {
 		return nil
 	case *types.Pointer:
 		thisref, thatref := "*"+this, "*"+that
-		reftyp := ttyp.Elem()
+		reftyp := types.Unalias(ttyp.Elem())
 		named, isNamed := reftyp.(*types.Named)
 		strct, isStruct := reftyp.Underlying().(*types.Struct)
 		if !isStruct {
